@@ -128,6 +128,8 @@ package expr
 //@       requires o != nil
 //@       requires* only.copied.attributes: sinceEntry(att) || inMap(d.ats, att)
 //@       modifies cell(o), elems(load(o)), each(load(o), Attribute)
+//@   at lookup dupper.uts assert* memo.keyed.by.id: key == utIDOf(t)
+//@   at mapupdate dupper.uts assert* memo.filed.by.id: key == utIDOf(t)
 //@   at fieldstore Array.ElemType assert* only.copied.attributes: sinceEntry(object) && (sinceEntry(value) || inMap(d.ats, value))
 //@   at fieldstore Map.KeyType assert* only.copied.attributes: sinceEntry(object) && (sinceEntry(value) || inMap(d.ats, value))
 //@   at fieldstore Map.ElemType assert* only.copied.attributes: sinceEntry(object) && (sinceEntry(value) || inMap(d.ats, value))
@@ -203,6 +205,30 @@ package expr
 //@ iface goa.design/goa/v3/expr.DataType.Kind
 //@   params dt
 //@   ensures result == kindOf(dt)
+//   -- the kind of a composite type identifies its representation (each implementation below is proved to return its constant)
+//@   ensures (result == ArrayKind) == typeIs(dt, *Array) && (result == MapKind) == typeIs(dt, *Map) && (result == ObjectKind) == typeIs(dt, *Object) && (result == UnionKind) == typeIs(dt, *Union) && (result == UserTypeKind) == typeIs(dt, *UserTypeExpr) && (result == ResultTypeKind) == typeIs(dt, *ResultTypeExpr)
+//@   modifies nothing
+//@ func (*Array).Kind
+//@   ensures result == ArrayKind
+//@   modifies nothing
+//@ func (*Map).Kind
+//@   ensures result == MapKind
+//@   modifies nothing
+//@ func (*Object).Kind
+//@   ensures result == ObjectKind
+//@   modifies nothing
+//@ func (*Union).Kind
+//@   ensures result == UnionKind
+//@   modifies nothing
+//@ func (*UserTypeExpr).Kind
+//@   ensures result == UserTypeKind
+//@   modifies nothing
+//@ func (*ResultTypeExpr).Kind
+//@   ensures result == ResultTypeKind
+//@   modifies nothing
+//@ func Primitive.Kind
+//@   params p
+//@   ensures result == p
 //@   modifies nothing
 //@ func hash
 //@   params dt ignoreFields ignoreNames ignoreTags seen
@@ -469,4 +495,46 @@ package expr
 //@   callspec removeAttribute params a name
 //@       requires* removes.the.mapped.attribute: a == attr && name == nat.Name
 //@       modifies all
+//@   modifies all
+
+// Equal is defined through the hash ("two types are equal exactly when their structural hashes, names and tags
+// ignored, are the same"): no shortcut decides equality on anything else.
+//@ func Equal
+//@   params dt dt2
+//@   property C13
+//@   callspec Hash params t f n g
+//@       ensures result == hashSpec(t, f, n, g)
+//@       modifies nothing
+//@   ensures* defined.through.hash: result == (hashSpec(dt, false, true, true) == hashSpec(dt2, false, true, true))
+//@   modifies* nothing
+//@   frameprop C13
+
+// ---- example values never crash the generators (C01) -----------------------------------------
+// "Example values are computed while building OpenAPI docs and may panic": the length drawn for a generated
+// string, array or map example is never negative, no remainder is taken modulo zero, and no collection is made
+// with a negative length.
+//@ func NewLength
+//@   params a r
+//@   property C01
+//@   requires a != nil && r != nil
+//@   callspec Int params
+//@       ensures result >= 0
+//@       modifies nothing
+//@   ensures* never.negative: result >= 0
+//@   modifies all
+//@ func byLength
+//@   params a r
+//@   opt safety on
+//@   property C01
+//@   requires a != nil && r != nil
+//@   panics_if kindOf(a.Type) != StringKind && kindOf(a.Type) != BytesKind && kindOf(a.Type) != MapKind && kindOf(a.Type) != ArrayKind
+//@   modifies all
+//@ func byEnum
+//@   params a r
+//@   opt safety on
+//@   property C01
+//@   requires a != nil && r != nil
+//@   callspec Int params
+//@       ensures result >= 0
+//@       modifies nothing
 //@   modifies all
